@@ -318,6 +318,9 @@ def _sources(expr, node: Node, reach: Reaching, depth=8, seen=None) -> Set[str]:
             else:
                 out.add(f"opaque:{d.name}")
         return out
+    if isinstance(expr, ast.IfExp):
+        # the value is one of the two arms; the test selects, it is not a source of the value
+        return _sources(expr.body, node, reach, depth, seen) | _sources(expr.orelse, node, reach, depth, seen)
     for ch in ast.iter_child_nodes(expr):
         if isinstance(ch, ast.expr):
             out |= _sources(ch, node, reach, depth, seen)
